@@ -74,15 +74,15 @@ theorem planner_optional_is_left_outer_join {gs : List QGraph} {F : Facts} (hF :
     (h : processClause F gs tbl c lo 0 = .ok (tbl', unres)) :
     unres = false ∧
     BW.Proofs.Planner.SetEq tbl'.rows
-      (tbl.rows.flatMap (BW.Proofs.Planner.specJoin (gs.flatMap BW.Proofs.Planner.scanOf) (BW.Proofs.Planner.nl lo.lower)
+      (tbl.rows.flatMap (BW.Proofs.Planner.specJoinO (gs.flatMap BW.Proofs.Planner.scanOf) (BW.Proofs.Planner.nl lo.lower)
         (BW.Proofs.Planner.nl lo.upper) c)) := by
-  obtain ⟨a1, a2, a3, a4⟩ := BW.Proofs.Planner.processClause_spec hF hg U ht hc.wf hc.consts hc.inU hfil
+  obtain ⟨a1, a2, a3, a4⟩ := BW.Proofs.Planner.processClause_spec hF hg U ht hc.wf hc.consts hc.inU hfil hc.objBoundExcl
     (fun hb => absurd hb hB) (fun he hb => absurd (hc.noBareAliases he) hb) h
   rw [BW.Proofs.Planner.absRows_of_ne hB] at a3 a4
   have hu : unres = false := (processClause_optional_keeps F gs tbl c lo 0 tbl' unres hopt h).1
   refine ⟨hu, ?_⟩
   have := a3 hu
-  rw [BW.Proofs.Planner.absRows_of_ne a2, BW.Proofs.Planner.joinClause_eq] at this
+  rw [BW.Proofs.Planner.absRows_of_ne a2, BW.Proofs.Planner.joinClauseO_flat] at this
   exact this
 
 end BW.Props.C10
